@@ -255,7 +255,8 @@ func ParseStandard(standardSpec string) (Schedule, error) {
 // list of "ranges".
 func getField(field string, r bounds) (uint64, error) {
 	var bits uint64
-	ranges := strings.FieldsFunc(field, func(r rune) bool { return r == ',' })
+	// Every term of the list must be a range: an empty term (",", "1,,2", "1,") is not
+	ranges := strings.Split(field, ",")
 	for _, expr := range ranges {
 		bit, err := getRange(expr, r)
 		if err != nil {
